@@ -511,6 +511,35 @@ ELEMENT_CONTRACTS = {
     'join-lazy-receiver-take': (
         '$c.select(tick($, $)).join([7, 8], true, [$1, $2]).take(3)',
         lambda L, o: {0: ('prefix', L, min(2, len(L)))}),
+    # accumulate without a seed is as lazy as with one: nothing is pulled
+    # from its receiver before somebody pulls from it
+    'accumulate-noseed-after-sibling': (
+        '[$c.select(tick($, $)).accumulate($1 + $2).where(true), '
+        'tick(999, 9)]',
+        lambda L, o: {'first': 999} if L else None),
+    'accumulate-noseed-take0': (
+        '$c.select(tick($, $)).accumulate($1 + $2).take(0)',
+        lambda L, o: {0: []} if L else None),
+    'accumulate-noseed-unused': (
+        'let(s => $c.select(tick($, $)).accumulate($1 + $2)) -> 1',
+        lambda L, o: {0: []}),
+    'accumulate-noseed-first': (
+        '$c.select(tick($, $)).accumulate($1 + $2).first(null)',
+        lambda L, o: {0: ('prefix', L, min(1, len(L)))} if L else None),
+    # the mergers of mergeWith run for the conflicting keys in the order of
+    # the receiver's keys
+    'mergeWith-item-order': (
+        '{3 => 30, 2 => 20, 1 => 10}.mergeWith({1 => 1, 2 => 2, 3 => 3}, '
+        'itemMerger => tick($1, $1 + $2))',
+        lambda L, o: {'log': [30, 20, 10]}),
+    'mergeWith-list-order': (
+        '{q => [9], c => [1], b => [2], a => [3]}.mergeWith('
+        '{a => [4], b => [5], c => [6]}, tick($1[0], $1 + $2))',
+        lambda L, o: {'log': [1, 2, 3]}),
+    'mergeWith-nested-order': (
+        '{x => {3 => 30, 2 => 20, 1 => 10}}.mergeWith('
+        '{x => {1 => 1, 2 => 2, 3 => 3}}, itemMerger => tick($1, $1 + $2))',
+        lambda L, o: {'log': [30, 20, 10]}),
     'max-min-sum': ('[$c.sum(0), $c.max(0), $c.min(0)]', lambda L, o: {}),
     'dict-comprehension': ('dict($c.select([tick($, $), tick(100 + $, 1)]))',
                            lambda L, o: {0: L, 100: L}),
